@@ -288,6 +288,10 @@ def run(fx, tier):
                     key='C09:R-DOM:no-io-after-close:%s::(%s)' % (f.cls, f.tag), where=f.file)
     if n_io < 40:
         raise AnalysisBroken('only %d I/O-initiating continuation paths found' % n_io)
+    # the packet that carries the request is the one MQTT 5 defines for these arguments (shared with C17)
+    from c17 import encoder_schema_rules
+    v.rule('R-SCHEMA', 'wire schema of encode_disconnect vs the MQTT 5 packet table (field order, kinds, sources, flag bits, Remaining Length)')
+    encoder_schema_rules(fx, v, 'C09', only=('encode_disconnect',))
     # "afterwards ... opens no connection": everything that can hold a pending completion under the service
     # (timers of the connect/back-off/read path, the resolver, the mutex, the queues) is drained from cancel()
     from c05 import rule_drain_members
